@@ -50,6 +50,8 @@ def _jsonable(x):
 def work(arg):
     """run one case symbolically. arg = (case, opts)"""
     case, opts = arg
+    if case.get('opts'):
+        opts = dict(opts, **case['opts'])
     t0 = time.time()
     out = {'case': case, 'paths': 0, 'obligations': 0, 'ok': 0, 'unknown': 0, 'unsupported': 0,
            'candidates': [], 'stats': None, 'error': None, 'path_samples': [], 'timeout': False,
@@ -66,10 +68,9 @@ def work(arg):
         holder = {}
 
         def body():
-            E = SymEnv(tt, qtimeout_ms=opts.get('final_timeout_ms', 30000))
+            E = SymEnv(tt, qtimeout_ms=opts.get('final_timeout_ms', 30000), scalar_mode=opts.get('scalar_mode', 'Z'))
             holder['E'] = E
-            if opts.get('setup'):
-                _setup(opts['setup'])
+            _setup(opts.get('setup') or {})
             fn(E, case['s'])
             return None
 
@@ -121,13 +122,19 @@ def work(arg):
     return out
 
 
-def _setup(name):
-    pass
+def _setup(cfg):
+    """per-path configuration of the factorization model etc. cfg: dict"""
+    from . import factor, symtorch
+    factor.MODE = cfg.get('factor_mode', 'exact')
+    factor.SIGNS = bool(cfg.get('signs', False))
+    symtorch.SELECT_MODE = cfg.get('select_mode', 'fork')
 
 
 def exact_trace(arg):
     """translator validation, python3-vt side: run the scenario on seeded rational constants through symtorch"""
-    case, seed = arg
+    case, seed, opts = arg
+    if case.get('opts'):
+        opts = dict(opts, **case['opts'])
     try:
         from . import loader
         from .env import ExactEnv
@@ -139,6 +146,7 @@ def exact_trace(arg):
         def body():
             E = ExactEnv(tt, seed)
             holder['E'] = E
+            _setup(opts.get('setup') or {})
             SCEN[case['scen']](E, case['s'])
 
         ex = Explorer(logic=None, qtimeout_ms=5000, max_paths=2)
@@ -245,7 +253,7 @@ def run_check(pid, cases, tier, seed, opts, meta):
         if tv_cases is None:
             step = max(1, len(cases) // max(1, meta.get('tv_max', 40)))
             tv_cases = cases[::step][:meta.get('tv_max', 40)]
-        exact = pool.map(exact_trace, [(c, seed + 1) for c in tv_cases], chunksize=1)
+        exact = pool.map(exact_trace, [(c, seed + 1, opts) for c in tv_cases], chunksize=1)
 
     errors = [r for r in results if r['error']]
     tot = {k: sum(r[k] for r in results) for k in ('paths', 'obligations', 'ok', 'unknown', 'unsupported', 'exceptions')}
@@ -294,7 +302,7 @@ def run_check(pid, cases, tier, seed, opts, meta):
     # ---- classify candidates
     known = load_known(pid)
     violations, known_hits, mismatches, unreplayed = [], {}, [], 0
-    rdir = os.path.join(VERIF, 'replays', pid)
+    rdir = os.path.join(os.environ.get('TV_REPLAY_DIR', os.path.join(VERIF, 'replays')), pid)
     by_sig = {}
     for cnd in cands:
         by_sig.setdefault(cnd['sig'], []).append(cnd)
@@ -394,8 +402,9 @@ def run_check(pid, cases, tier, seed, opts, meta):
         'wall_s': round(wall, 2),
         'violations': len(violations),
     }
-    os.makedirs(os.path.join(VERIF, 'evidence'), exist_ok=True)
-    json.dump(evidence, open(os.path.join(VERIF, 'evidence', pid + '.json'), 'w'), indent=1, default=str)
+    evdir = os.environ.get('TV_EVIDENCE_DIR', os.path.join(VERIF, 'evidence'))
+    os.makedirs(evdir, exist_ok=True)
+    json.dump(evidence, open(os.path.join(evdir, pid + '.json'), 'w'), indent=1, default=str)
     print('%s %s: cases=%d paths=%d obligations=%d unsat=%d candidates=%d violations=%d known=%d mismatches=%d tv_ok=%d tv_bad=%d inconclusive=%d wall=%.1fs solver=%.1fs' % (
         pid, tier, len(cases), tot['paths'], tot['obligations'], tot['ok'], len(cands), len(violations), len(known_hits),
         len(mismatches), tv_ok, len(tv_bad), inconclusive, wall, stats.get('solver_s', 0.0)))
